@@ -169,8 +169,16 @@ def spec_patterns(spec):
     import re
 
     pats = set()
-    ids = [x["id"] for x in spec["rxns"] + spec["mets"] + spec["genes"] + spec["groups"]]
-    if any(re.search(r"__\d+__", i) for i in ids):
+    # the escape scheme (non-alphanumerics -> __<ord>__, prefix M_/R_/G_) is not injective: an id is affected when
+    # decoding its encoded form does not give the id back (literal __NN__ in the id, or e.g. "_6" followed by an
+    # escaped character: M_ + _6 + __248__ reads as M_ + chr(6) + 248__)
+    def mangled(prefix, i):
+        enc = prefix + re.sub(r"([^0-9_a-zA-Z])", lambda m: f"__{ord(m.group())}__", i)
+        dec = re.sub(r"__(\d+)__", lambda m: chr(int(m.group(1))) if int(m.group(1)) < 0x110000 else m.group(0), enc)
+        return (dec[len(prefix):] if dec.startswith(prefix) else dec) != i
+
+    if (any(mangled("R_", x["id"]) for x in spec["rxns"]) or any(mangled("M_", x["id"]) for x in spec["mets"])
+            or any(mangled("G_", x["id"]) for x in spec["genes"] + spec["groups"])):
         pats.add("sbml-dunder-id")
     if any(m["charge"] is None for m in spec["mets"]):
         pats.add("sbml-charge-none")
